@@ -21,7 +21,7 @@ import time
 VERIF = os.path.dirname(os.path.dirname(os.path.abspath(__file__)))
 REPO = os.environ.get("VERIF_REPO", "/repo")
 LEAN = os.path.join(VERIF, "lean")
-BUILD = os.path.join(VERIF, "build")
+BUILD = os.environ.get("VERIF_BUILD", os.path.join(VERIF, "build"))
 REPLAYS = os.path.join(VERIF, "replays")
 EVID = os.path.join(VERIF, "evidence")
 NCPU = os.cpu_count() or 4
@@ -309,16 +309,16 @@ def axiom_audit(modules, theorems, tag):
     return res, txt
 
 
-def driver_path():
-    return os.path.join(LEAN, ".lake", "build", "bin", "driver")
+def driver_path(engine):
+    return os.path.join(LEAN, ".lake", "build", "bin", "drv_" + engine)
 
 
 def run_driver(engine, ops, workdir, tag, nproc=1):
     """Pipe op lines through the compiled model.  Stateless engines may be split over
     several processes (nproc > 1)."""
-    exe = driver_path()
+    exe = driver_path(engine)
     if nproc <= 1 or len(ops) < 2000:
-        p = subprocess.run([exe, engine], input="\n".join(ops) + "\n", stdout=subprocess.PIPE,
+        p = subprocess.run([exe], input="\n".join(ops) + "\n", stdout=subprocess.PIPE,
                            stderr=subprocess.PIPE, text=True)
         if p.returncode != 0:
             raise RuntimeError("driver failed: " + p.stderr[-2000:])
@@ -334,7 +334,7 @@ def run_driver(engine, ops, workdir, tag, nproc=1):
         fn = os.path.join(workdir, "%s.drv.%d" % (tag, i))
         with open(fn, "w") as f:
             f.write("\n".join(part) + "\n")
-        procs.append((fn, len(part), subprocess.Popen([exe, engine], stdin=open(fn), stdout=subprocess.PIPE,
+        procs.append((fn, len(part), subprocess.Popen([exe], stdin=open(fn), stdout=subprocess.PIPE,
                                                       stderr=subprocess.PIPE, text=True)))
     for fn, n, p in procs:
         out, err = p.communicate()
@@ -354,11 +354,23 @@ def run_driver(engine, ops, workdir, tag, nproc=1):
 # known findings
 # ---------------------------------------------------------------------------------
 def load_known(prop):
-    p = os.path.join(VERIF, "known_findings.json")
-    if not os.path.exists(p):
-        return []
-    data = json.load(open(p))
-    return [e for e in data.get("findings", []) if e.get("property") == prop and e.get("status") == "known"]
+    """Committed known findings: known_findings.json (consolidated) and known_findings.d/*.json.
+    Never written at run time."""
+    files = [os.path.join(VERIF, "known_findings.json")]
+    d = os.path.join(VERIF, "known_findings.d")
+    if os.path.isdir(d):
+        files += sorted(os.path.join(d, f) for f in os.listdir(d) if f.endswith(".json"))
+    out = []
+    seen = set()
+    for p in files:
+        if not os.path.exists(p):
+            continue
+        data = json.load(open(p))
+        for e in data.get("findings", []):
+            if e.get("property") == prop and e.get("status") == "known" and e.get("id") not in seen:
+                seen.add(e.get("id"))
+                out.append(e)
+    return out
 
 
 # ---------------------------------------------------------------------------------
@@ -424,7 +436,7 @@ def _run(mod, args, workdir, t0):
     # ---- 1. proofs ------------------------------------------------------------------
     theorems = list(mod.THEOREMS)
     modules = list(mod.LEAN_MODULES)
-    ok, out, dt = lake_build(modules + ["driver"])
+    ok, out, dt = lake_build(modules + ["drv_" + mod.ENGINE])
     cov["lake_build_s"] = round(dt, 1)
     broken = []          # names of obligations that no longer check
     build_log_tail = ""
@@ -434,7 +446,7 @@ def _run(mod, args, workdir, t0):
         for m in re.findall(r"error: ([^\n]*)", out):
             res.notes.append("lake: " + m[:300])
         # try to build the driver alone so the search can still use the model
-        ok_drv, out2, _ = lake_build(["driver"])
+        ok_drv, out2, _ = lake_build(["drv_" + mod.ENGINE])
         broken_mods = [m for m in modules if not lake_build([m])[0]]
         broken = ["module " + m for m in broken_mods]
         if not ok_drv:
@@ -481,7 +493,7 @@ def _run(mod, args, workdir, t0):
         payload = json.load(open(args.replay))
         ops = payload.get("ops", [])
         io = run_harness(exe, ops, workdir, "replay")
-        mo = run_driver(mod.ENGINE, ops, workdir, "replay") if os.path.exists(driver_path()) else ["?"] * len(ops)
+        mo = run_driver(mod.ENGINE, ops, workdir, "replay") if os.path.exists(driver_path(mod.ENGINE)) else ["?"] * len(ops)
         for o, a, b in zip(ops, io, mo):
             print("op   :", o)
             print("impl :", a)
@@ -504,7 +516,7 @@ def _run(mod, args, workdir, t0):
     for op in mod.generate(rng, tier, stats):
         ops.append(op)
     impl = run_harness(exe, ops, workdir, "main")
-    have_driver = os.path.exists(driver_path())
+    have_driver = os.path.exists(driver_path(mod.ENGINE))
     model = run_driver(mod.ENGINE, ops, workdir, "main", nproc=NCPU if getattr(mod, "STATELESS", True) else 1) if have_driver else None
 
     diffs = []
